@@ -142,6 +142,7 @@ class Reader:
         self.atoms = set()        # names of locals kept as atoms (their definitions are recorded, not substituted)
         self.atom_defs = {}       # name -> defining expression (in terms of earlier atoms)
         self.atom_order = []
+        self.statics = {}         # id -> name of the function-local statics met (E-PURE)
 
     # -- entry ---------------------------------------------------------
     def run(self, fn, args=None, this=('this',), state=None, depth=0):
@@ -347,6 +348,11 @@ class Reader:
             st.effects.append(('lock', pp(v.get('init')), None))
             return [st]
         init = v.get('init')
+        if v.get('static') and not v['t'].get('const'):
+            # function-local static: state that survives the call; its value on entry is whatever earlier calls left there
+            st.locals[v['id']] = self.symbol('static:' + v['name'], v['t'])
+            self.statics[v['id']] = v['name']
+            return [st]
         if init is None:
             st.locals[v['id']] = self.symbol('uninit:' + v['name'], v['t'])
             return [st]
